@@ -180,12 +180,14 @@ class ElasticsearchQueryBuilder(TreeVisitor):
         If two same operation are nested, then simplify
         Should be use only with should and must operations because Not(Not(x))
         can't be simplified as Not(x)
+        A nested operation that has a name of its own is kept,
+        so that its name still reaches its elements
         :param children:
         :param current_node:
         :return:
         """
         for child in children:
-            if type(child) is type(current_node):
+            if type(child) is type(current_node) and get_name(child) is None:
                 yield from self.simplify_if_same(child.children, current_node)
             else:
                 yield child
